@@ -8,7 +8,7 @@
    limiter and MustRefuse calls of the extension; [life_run] a Start/Shutdown history.
    The limit predicates, checker constructors and Validate are Generated.MemLimiter18 (T1). *)
 From Verif Require Import Common.Base Generated.MemLimiter18 C18.Model C18.Proofs C18.ProofsShare C18.ProofsSys C18.ProofsFine C18.ProofsTotal
-  Generated.C18ApiExt Generated.C18ApiProc C18.Audit C18.Obligations.
+  Generated.C18ApiExt Generated.C18ApiProc C18.Audit C18.Obligations C18.Harness C18.Clauses C18.ClausesSound.
 From Coq Require String.
 Local Open Scope Z_scope.
 
@@ -307,6 +307,38 @@ Theorem ob_single_writers :
   writers_of_must_refuse = only_check_mem_limits /\ writers_of_last_gc = only_do_gc.
 Proof. exact ob_writers_l. Qed.
 
+(* Before the first check the limiter accepts: whatever consumes and queries happen, the state is
+   the initial one (mustRefuse = false). *)
+Theorem accepting_before_first_check : forall l t0 ops,
+  checks_of ops = [] -> fst (gate_run l (st0 t0) ops) = st0 t0 /\ refuse (st0 t0) = false.
+Proof.
+  exact (fun l t0 ops H => conj (eq_trans (gate_state_l l (st0 t0) ops) (f_equal (fun ts => fst (run l (st0 t0) ts)) H)) eq_refl).
+Qed.
+
+(* ---- the decidable clause checkers of Clauses.v (evaluated by the check driver over every OBSERVED
+   case, without the model's step functions) decide exactly the Prop-level clauses ... *)
+Theorem clauses_sound_run : forall l ticks obs s0,
+  hviol (run_viol l) run_next s0 ticks obs = [] <-> hclause run_next (run_clause l) s0 ticks obs.
+Proof. exact run_history_sound. Qed.
+
+Theorem clauses_sound_gate : forall l ops obs s0,
+  hviol (gate_viol l) gate_next s0 ops obs = [] <-> hclause gate_next (gate_clause l) s0 ops obs.
+Proof. exact gate_history_sound. Qed.
+
+Theorem clauses_sound_life : forall ops obs n0,
+  hviol life_viol life_next n0 ops obs = [] <-> hclause life_next life_clause n0 ops obs.
+Proof. exact life_history_sound. Qed.
+
+(* ... and the model's own behaviour satisfies them, for every history: a clause violated by an
+   observed case is a violation of what the theorems above say. *)
+Theorem model_satisfies_run_clauses : forall l, wf l -> forall ticks s,
+  hviol (run_viol l) run_next (last_gc s) ticks (run_obs l s ticks) = [].
+Proof. exact model_run_ok. Qed.
+
+Theorem model_satisfies_life_clauses : forall ops,
+  hviol life_viol life_next 0 ops (life_obs_run life0 ops) = [].
+Proof. exact (fun ops => model_life_ok ops life0 ProofsFine.life0_inv). Qed.
+
 Print Assumptions refuse_iff_soft.
 Print Assumptions refuse_iff_soft_validated.
 Print Assumptions refuse_is_above_soft.
@@ -346,3 +378,9 @@ Print Assumptions ob_limiter_methods.
 Print Assumptions ob_processor_methods.
 Print Assumptions ob_extension_methods.
 Print Assumptions ob_single_writers.
+Print Assumptions accepting_before_first_check.
+Print Assumptions clauses_sound_run.
+Print Assumptions clauses_sound_gate.
+Print Assumptions clauses_sound_life.
+Print Assumptions model_satisfies_run_clauses.
+Print Assumptions model_satisfies_life_clauses.
